@@ -207,7 +207,8 @@ def gen_empty_segments(ops=('delete',)):
 # keys given as T / Spec expressions (evaluated against the target, like in a read), also as the LAST segment
 
 def dyn_target():
-    return {'key': 'x', 'idx': 1, 'first': 'a', 'a': {'x': 5, 'y': 6}, 'l': [10, 20, 30], 'o': MR.Obj(x=1)}
+    return {'key': 'x', 'idx': 1, 'first': 'a', 'a': {'x': 5, 'y': 6}, 'l': [10, 20, 30], 'o': MR.Obj(x=1),
+            'm': {('x', 2): {'z': 7, 'w': 8}, ('y', 2): {'z': 9}}, 'rows': [{'x': 1, 'y': 2}, {'x': 3, 'y': 4}, {'x': 5}], 'n': 0, 'ykey': 'y'}
 
 
 DYN_PATHS = {
@@ -220,6 +221,9 @@ DYN_PATHS = {
     'both-from-T': (lambda: T[T['first']][T['key']], lambda t: t[t['first']], lambda t: t['key']),
     'in-Path': (lambda: Path('a', T[T['key']]), lambda t: t['a'], lambda t: t['key']),
     'last-key-missing-name': (lambda: T['a'][T['nokey']], None, None),
+    # a spec INSIDE a container key (a tuple key whose first member is fetched from the target), as middle and as last segment
+    'middle-tuple-key-holding-T': (lambda: T['m'][(T['key'], 2)]['z'], lambda t: t['m'][(t['key'], 2)], lambda t: 'z'),
+    'last-tuple-key-holding-T': (lambda: T['m'][(T['key'], 2)], lambda t: t['m'], lambda t: (t['key'], 2)),
     'root-level-key-from-T': (lambda: T[T['first']], lambda t: t, lambda t: t['first']),
 }
 
@@ -261,6 +265,51 @@ def run_dynamic_keys(case):
     return R(None, '%s:%s' % (op, want), nontrivial=True, steps=1, tags={op, pname})
 
 
+def run_dynamic_wildcard(case):
+    """a dynamic key below a wildcard is evaluated ONCE against the target as it was, then applied to every match"""
+    from glom import assign, Assign
+    op, keykind, style = case
+    ref_t, t = dyn_target(), dyn_target()
+    if keykind == 'key-from-first-row':
+        # the key is computed from data that the operation itself changes (the first row)
+        keyspec = Spec(lambda tt: sorted(tt['rows'][0])[0])
+        key = sorted(ref_t['rows'][0])[0]
+    elif keykind == 'key-from-untouched':
+        keyspec, key = T['key'], ref_t['key']
+    elif keykind == 'key-missing-in-last-row':
+        keyspec, key = T['ykey'], ref_t['ykey']
+    else:
+        keyspec = Spec(lambda tt: 'x' if len(tt['rows'][0]) == 2 else 'y')
+        key = 'x'
+    path = Path(Path.from_text('rows.*'), T[keyspec])
+    err_want = None
+    for row in ref_t['rows']:
+        try:
+            if op == 'delete':
+                del row[key]
+            else:
+                row[key] = 'NEW'
+        except KeyError as e:
+            err_want = e
+            break
+    try:
+        if op == 'delete':
+            delete(t, path) if style == 'func' else glom(t, Delete(path))
+        else:
+            assign(t, path, 'NEW') if style == 'func' else glom(t, Assign(path, 'NEW'))
+        err_got = None
+    except Exception as e:
+        err_got = e
+    if (err_want is None) != (err_got is None) or MR.canon(t) != MR.canon(ref_t):
+        return R({'expected': '%r%s' % (ref_t['rows'], ' then an error' if err_want else ''), 'observed': '%r / %r' % (t['rows'], err_got),
+                  'op': op, 'key': keykind, 'path': repr(path)}, 'dynamic-wildcard')
+    return R(None, '%s:%s' % (op, 'err' if err_want else 'ok'), nontrivial=True, steps=3, tags={op, keykind})
+
+
+def gen_dynamic_wildcard(ops):
+    return [[op, k, style] for op in ops for k in ('key-from-first-row', 'key-from-untouched', 'key-missing-in-last-row', 'key-depends-on-row-size') for style in ('func', 'spec')]
+
+
 def gen_dynamic_keys(ops):
     return [[op, p, style] for op in ops for p in DYN_PATHS for style in ('func', 'spec')]
 
@@ -288,6 +337,11 @@ def subs(tier, only=None):
                        rule='case = (path whose last / middle / only key is a T or Spec expression evaluated against the target, function | spec form): the effect '
                             'equals del with the evaluated key',
                        min_nontrivial=15, min_outcomes=2, required_tags=['last-key-from-T', 'middle-key-from-T']))
+    if only in (None, 'dynamic-keys-below-wildcards'):
+        out.append(Sub('dynamic-keys-below-wildcards', gen_dynamic_wildcard(('delete',)), run_dynamic_wildcard,
+                       rule='case = (rows.* followed by a T[spec] key whose spec reads data the deletion changes / leaves alone, function | spec form): the key is '
+                            'evaluated once against the target as it was, then every match is treated',
+                       min_nontrivial=8, min_outcomes=2, required_tags=['key-from-first-row']))
     if only in (None, 'empty-segments'):
         out.append(Sub('empty-segments', gen_empty_segments(('delete',)), run_empty_segments,
                        rule="case = (path text over the segments '' and 'k', 1-3 segments, function | spec form) on a tree whose every node has the keys '' and 'k': "
